@@ -1,5 +1,7 @@
 import Morlock.Model.Fen
 import Morlock.Proofs.FenCanon
+import Morlock.Proofs.EngineMove
+import Morlock.Proofs.RepExample
 /-!
 # C19 — textual input is handled totally
 
@@ -9,6 +11,11 @@ is no `panic`, `get!` or partial definition on their paths, so "never crashes" h
 by construction *provided* the indices the Go code uses stay in range. That proviso is the theorem
 below: every square the placement loop hands to `NewPosition` is `< 64` and strictly below every
 square placed before it (so `NewPosition`'s arrays are indexed in range and no square is placed twice).
+
+Second half of the property ("a move string is accepted by a game exactly when it denotes a legal move of the
+current position, and rejected input leaves the game state unchanged"): section *The engine* at the end —
+`move_rejected_unchanged`, `move_accepted_iff`, `move_accepted_push`, `takeBack_*`, `reset_*`, about the model
+`Model/EngineM.lean` of `engine.Engine` (`Reset`/`Move`/`TakeBack`), which the `engine` stream ties to the real code.
 
 On top of that: `decoded_wellformed` — whatever **any** string decodes to is a well-formed position
 (all redundant views agree with one mailbox board, rights among the four bits, target on the board,
@@ -141,5 +148,216 @@ example : ∃ d, decode "  4k3/8/8/8/8/8/8/R3K2R W QKQ - +007 012 ".toList = som
   rw [hd] at he
   simp only [Option.map_some, Option.some.injEq] at he
   exact ⟨d, hd, (decoded_wellformed hd).1, he, he ▸ accepted_roundtrip hd⟩
+
+/-! ## The engine: `Engine.Move`, `Engine.TakeBack`, `Engine.Reset` (`Model/EngineM.lean`)
+
+`e.move z txt`, `e.takeBack`, `e.reset z txt` return the new engine and whether the Go method returned `nil`.
+`e.pos` / `e.turn` are `e.b.Position()` / `e.b.Turn()`. `Engine.Ok e`: the arena is well-formed, board 0 exists and
+has not been adjudicated as checkmate / stalemate (`Engine.Open e`; nothing in the engine does that to `e.b` — the
+search works on forks — and `PushMove` refuses every move on such a board, legal or not). `WF` / `WFplay` are the
+well-formedness predicates of C01 (`WFplay` adds "the side that has just moved is not in check" and is the one
+preserved by play). -/
+section Engine
+open Morlock.Proofs.Gen Morlock.Proofs.Chain Morlock.Proofs.Arena Morlock.Model.World
+
+/-- **C19 `move_rejected_unchanged`.** If `Engine.Move` returns an error — the text does not parse, no generated move
+    `Equals` the candidate, or `PushMove` refuses it — the engine is the one it was given: the whole world (every board,
+    every node of the history, result, counters, repetition map), not only what `Position()` prints. -/
+theorem move_rejected_unchanged (z : ZTable) (e : EngineM) (txt : List Char) (h : (e.move z txt).2 = false) :
+    (e.move z txt).1 = e := Engine.move_rejected_unchanged z e txt h
+
+/-- The same for `Engine.TakeBack` (nothing to take back) … -/
+theorem takeBack_rejected_unchanged (e : EngineM) (h : e.takeBack.2 = false) : e.takeBack.1 = e :=
+  Engine.takeBack_rejected_unchanged e h
+
+/-- … and `Engine.Reset` (`fen.Decode` refuses the text). -/
+theorem reset_rejected_unchanged (z : ZTable) (e : EngineM) (txt : List Char) (h : (e.reset z txt).2 = false) :
+    (e.reset z txt).1 = e := Engine.reset_rejected_unchanged z e txt h
+
+/-- **C19 `move_accepted_iff`.** On a well-formed current position (board not adjudicated) `Engine.Move` accepts a
+    text **iff** `board.ParseMove` accepts it and the candidate — its from-square, to-square and promotion piece —
+    is a legal move of the reference rules (`Spec.legalMoves`, FIDE) in the current position. Any string: too short,
+    too long, non-ASCII, wrong case, a pseudo-legal move that leaves the king in check, a promotion without or with
+    a wrong piece letter. (Through C01 `legal_perm`; the loop of `Engine.Move` lets the *first* generated move that
+    `Equals` the candidate decide, which is right because no two generated moves share from, to and promotion —
+    C01 `pseudo_nodup`.) -/
+theorem move_accepted_iff (z : ZTable) (e : EngineM) (txt : List Char) (hw : WF e.pos e.turn) (ho : Engine.Open e) :
+    (e.move z txt).2 = true ↔
+      ∃ cand, parseMove txt = some cand ∧ absMove cand ∈ Spec.legalMoves (abs e.pos e.turn) := by
+  rw [Engine.move_accepted_iff_model z e txt hw ho]
+  constructor
+  · rintro ⟨cand, m, h1, h2, h3⟩; exact ⟨cand, h1, (Engine.denotes_legal_iff hw cand).2 ⟨m, h2, h3⟩⟩
+  · rintro ⟨cand, h1, h2⟩
+    obtain ⟨m, hm, he⟩ := (Engine.denotes_legal_iff hw cand).1 h2
+    exact ⟨cand, m, h1, hm, he⟩
+
+/-- The same against the model's own legal-move list. -/
+theorem move_accepted_iff_model (z : ZTable) (e : EngineM) (txt : List Char) (hw : WF e.pos e.turn) (ho : Engine.Open e) :
+    (e.move z txt).2 = true ↔
+      ∃ cand m, parseMove txt = some cand ∧ m ∈ e.pos.legalMoves e.turn ∧ cand.equals m = true :=
+  Engine.move_accepted_iff_model z e txt hw ho
+
+/-- **C19 `move_accepted_push`.** When `Engine.Move` accepts, the new state is `PushMove` of the legal move the text
+    denotes: that move `m` is a legal move of the model with the candidate's from, to and promotion, a legal move of the
+    reference; the new world is `pushMove` of it (C05/C08 say what that records); `LastMove` reports it; the new position
+    is the reference position after the move, with the other side to move; and the invariants (`Ok`, `WFplay`) hold again,
+    so the next text is judged by `move_accepted_iff` too. -/
+theorem move_accepted_push (z : ZTable) (e : EngineM) (txt : List Char) (hk : Engine.Ok e) (hw : WFplay e.pos e.turn)
+    (h : (e.move z txt).2 = true) :
+    ∃ cand m, parseMove txt = some cand ∧ m ∈ e.pos.legalMoves e.turn ∧ absMove m = absMove cand ∧
+      absMove cand ∈ Spec.legalMoves (abs e.pos e.turn) ∧
+      e.w.pushMove z 0 m = some (e.move z txt).1.w ∧
+      (e.move z txt).1.w.lastMove 0 = some m ∧
+      (e.move z txt).1.turn = e.turn.opp ∧
+      abs (e.move z txt).1.pos (e.move z txt).1.turn = Spec.apply (abs e.pos e.turn) (absMove cand) ∧
+      WFplay (e.move z txt).1.pos (e.move z txt).1.turn ∧ Engine.Ok (e.move z txt).1 := by
+  obtain ⟨cand, m, h1, h2, h3, h4, h5, h6, h7⟩ := Engine.move_accepted_pos z e txt hk h
+  have hm := (C01.legal_iff _ _ _).1 h2
+  have he := (Engine.equals_iff_absMove cand m).1 h3
+  refine ⟨cand, m, h1, h2, he.symm, (Engine.denotes_legal_iff hw.1 cand).2 ⟨m, h2, h3⟩, h4, h7, h6, ?_, ?_,
+    Engine.ok_move z e txt hk h⟩
+  · rw [h6, he]; exact step_refines hw hm.1 h5
+  · rw [h6]; exact wf_preserved hw hm.1 h5
+
+/-- `Engine.TakeBack` is accepted iff there is a move to take back (`LastMove` reports one) … -/
+theorem takeBack_accepted_iff (e : EngineM) : e.takeBack.2 = true ↔ (e.w.lastMove 0).isSome = true :=
+  Engine.takeBack_accepted_iff e
+
+/-- … and then the new state is `PopMove`, which returned that move (C08 says what it restores); the invariant holds again. -/
+theorem takeBack_accepted_pop (e : EngineM) (hk : Engine.Ok e) (h : e.takeBack.2 = true) :
+    (∃ m, e.w.lastMove 0 = some m ∧ e.w.popMove 0 = some (e.takeBack.1.w, m)) ∧ Engine.Ok e.takeBack.1 :=
+  ⟨Engine.takeBack_accepted e h, Engine.ok_takeBack e hk h⟩
+
+/-- An accepted move followed by `TakeBack`: accepted, and everything the board reports — position, side, hash,
+    clocks, counters, has-castled flags, `LastMove`, `SecondToLastMove`, `HasMoved`, the repetition map — is as before
+    the move (C08 `push_pop`; `CastleFresh`: nobody castles with his has-castled flag already set, see C08); the
+    result is `Undecided`. -/
+theorem move_takeBack (z : ZTable) (e : EngineM) (txt : List Char) (hk : Engine.Ok e) (h : (e.move z txt).2 = true)
+    (hc : ∀ m ∈ e.pos.legalMoves e.turn, CastleFresh e.w 0 m) :
+    (e.move z txt).1.takeBack.2 = true ∧
+    obsNoResult (e.move z txt).1.takeBack.1.w 0 = obsNoResult e.w 0 ∧
+    ((e.move z txt).1.takeBack.1.w.board 0).result = { outcome := .undecided } :=
+  Engine.move_takeBack z e txt hk h hc
+
+/-- `Engine.Reset` is accepted iff `fen.Decode` accepts the text … -/
+theorem reset_accepted_iff (z : ZTable) (e : EngineM) (txt : List Char) :
+    (e.reset z txt).2 = true ↔ (decode txt).isSome = true := Engine.reset_accepted_iff z e txt
+
+/-- … and then the game is a new board on the decoded value, without history: position, side to move, no last move;
+    `Position()` prints the standard spelling of the text, which decodes to the same value (`accepted_roundtrip`);
+    the position is well-formed in the sense of `decoded_wellformed`; the invariant `Ok` holds. -/
+theorem reset_accepted_new (z : ZTable) (e : EngineM) (txt : List Char) (d : Decoded) (hd : decode txt = some d) :
+    (e.reset z txt).2 = true ∧
+    (e.reset z txt).1.w = (({} : World).newBoard z d.pos d.turn d.noprogress d.fullmoves).1 ∧
+    (e.reset z txt).1.pos = d.pos ∧ (e.reset z txt).1.turn = d.turn ∧ (e.reset z txt).1.w.lastMove 0 = none ∧
+    decode (e.reset z txt).1.position.toList = some d ∧
+    Rep (e.reset z txt).1.pos (e.reset z txt).1.pos.square ∧ Engine.Ok (e.reset z txt).1 := by
+  obtain ⟨h1, h2, h3, h4, h5, h6⟩ := Engine.reset_accepted z e txt d hd
+  refine ⟨h1, h2, h3, h4, h5, ?_, ?_, Engine.ok_reset z e txt h1⟩
+  · rw [h6]; exact accepted_roundtrip hd
+  · rw [h3]; exact decoded_rep_square hd
+
+/-- Feeding a list of texts to `Engine.Move`, one after the other, whatever is accepted. -/
+def feed (z : ZTable) : EngineM → List (List Char) → EngineM
+  | e, [] => e
+  | e, t :: ts => feed z (e.move z t).1 ts
+
+/-- The invariant under which `move_accepted_iff` speaks survives any list of texts. -/
+theorem feed_inv (z : ZTable) (e : EngineM) (ts : List (List Char)) (hk : Engine.Ok e) (hw : WFplay e.pos e.turn) :
+    Engine.Ok (feed z e ts) ∧ WFplay (feed z e ts).pos (feed z e ts).turn := by
+  induction ts generalizing e with
+  | nil => exact ⟨hk, hw⟩
+  | cons t ts ih =>
+    cases h : (e.move z t).2 with
+    | false =>
+      have := move_rejected_unchanged z e t h
+      simp only [feed, this]; exact ih e hk hw
+    | true =>
+      obtain ⟨_, _, _, _, _, _, _, _, _, _, hw', hk'⟩ := move_accepted_push z e t hk hw h
+      exact ih _ hk' hw'
+
+/-- **C19 for a whole game.** Set up from a text `fen.Decode` accepts whose position satisfies `WFplay` (the start
+    position does), and fed *any* list of strings: the next string is accepted exactly when it denotes a legal move
+    of the reference rules in the position then current; and a rejected string changes nothing. -/
+theorem game_move_accepted_iff (z : ZTable) (e0 : EngineM) (fenTxt : List Char) (d : Decoded) (hd : decode fenTxt = some d)
+    (hw : WFplay d.pos d.turn) (ts : List (List Char)) (txt : List Char) :
+    let e := feed z (e0.reset z fenTxt).1 ts
+    ((e.move z txt).2 = true ↔ ∃ cand, parseMove txt = some cand ∧ absMove cand ∈ Spec.legalMoves (abs e.pos e.turn)) ∧
+    ((e.move z txt).2 = false → (e.move z txt).1 = e) := by
+  obtain ⟨_, _, h3, h4, _, _, _, hk⟩ := reset_accepted_new z e0 fenTxt d hd
+  have hw0 : WFplay (e0.reset z fenTxt).1.pos (e0.reset z fenTxt).1.turn := by rw [h3, h4]; exact hw
+  obtain ⟨hk', hw'⟩ := feed_inv z _ ts hk hw0
+  exact ⟨move_accepted_iff z _ txt hw'.1 hk'.notBlocked, move_rejected_unchanged z _ txt⟩
+
+/-! ### On the start position -/
+
+open Morlock.Proofs (exZ)
+
+private def startFen : List Char := "rnbqkbnr/pppppppp/8/8/8/8/PPPPPPPP/RNBQKBNR w KQkq - 0 1".toList
+
+/-- The engine after `Reset(fen.Initial)` (sample Zobrist table `exZ`). -/
+def exEngine : EngineM := ((default : EngineM).reset exZ startFen).1
+
+theorem exEngine_decoded : ∃ d, decode startFen = some d ∧ d.pos = startPos ∧ d.turn = .white := by
+  have h : ((decode startFen).map fun d => (d.pos, d.turn)) = some (startPos, Color.white) := by decide +kernel
+  cases hd : decode startFen with
+  | none => rw [hd] at h; cases h
+  | some d =>
+    rw [hd] at h
+    simp only [Option.map_some, Option.some.injEq, Prod.mk.injEq] at h
+    exact ⟨d, rfl, h.1, h.2⟩
+
+theorem exEngine_inv : Engine.Ok exEngine ∧ exEngine.pos = startPos ∧ exEngine.turn = .white := by
+  obtain ⟨d, hd, hp, ht⟩ := exEngine_decoded
+  obtain ⟨_, _, h3, h4, _, _, _, hk⟩ := reset_accepted_new exZ default startFen d hd
+  exact ⟨hk, h3.trans hp, h4.trans ht⟩
+
+/-- `e2e4` is accepted; `e2e5` (no such move), `e1e2` (own pawn in the way), `zzzz`, `e2é` (three runes, one of them not
+    ASCII), the empty string and `e2e4q` (a promotion that is none) are rejected — by evaluation of the model … -/
+example : (exEngine.move exZ "e2e4".toList).2 = true ∧ (exEngine.move exZ "E2E4".toList).2 = true ∧
+    (exEngine.move exZ "e2e5".toList).2 = false ∧ (exEngine.move exZ "e1e2".toList).2 = false ∧
+    (exEngine.move exZ "zzzz".toList).2 = false ∧ (exEngine.move exZ "e2é".toList).2 = false ∧
+    (exEngine.move exZ [] ).2 = false ∧ (exEngine.move exZ "e2e4q".toList).2 = false := by decide +kernel
+
+/-- … and, through `move_accepted_iff`, that is the verdict of the reference rules: `e2e4` is a legal move of the
+    reference in the start position, `e2e5` is not. -/
+example : (⟨11, 27, none⟩ : Spec.SMove) ∈ Spec.legalMoves (abs startPos .white) ∧
+    (⟨11, 35, none⟩ : Spec.SMove) ∉ Spec.legalMoves (abs startPos .white) := by
+  obtain ⟨hk, hp, ht⟩ := exEngine_inv
+  have hw : WF exEngine.pos exEngine.turn := by rw [hp, ht]; exact startPos_wfplay.1
+  constructor
+  · have h : (exEngine.move exZ "e2e4".toList).2 = true := by decide +kernel
+    obtain ⟨cand, hc, hl⟩ := (move_accepted_iff exZ exEngine _ hw hk.notBlocked).1 h
+    have : cand = { «from» := 11, to := 27 } := by
+      have : parseMove "e2e4".toList = some { «from» := 11, to := 27 } := by decide
+      rw [this] at hc; exact (Option.some.inj hc).symm
+    rw [this, hp, ht] at hl; exact hl
+  · intro hl
+    have h : (exEngine.move exZ "e2e5".toList).2 = false := by decide +kernel
+    have hp' : parseMove "e2e5".toList = some { «from» := 11, to := 35 } := by decide
+    have := (move_accepted_iff exZ exEngine _ hw hk.notBlocked).2 ⟨_, hp', by rw [hp, ht]; exact hl⟩
+    rw [h] at this; cases this
+
+/-- Rejected input leaves the engine as it was (`move_rejected_unchanged` instantiated); an accepted move can be
+    taken back, a second take-back is refused and changes nothing either. -/
+example : (exEngine.move exZ "e2é".toList).1 = exEngine ∧ (exEngine.move exZ "e2e5".toList).1 = exEngine ∧
+    exEngine.takeBack.1 = exEngine ∧ (exEngine.reset exZ "8/8 w - - 0 1".toList).1 = exEngine :=
+  ⟨move_rejected_unchanged exZ _ _ (by decide +kernel), move_rejected_unchanged exZ _ _ (by decide +kernel),
+   takeBack_rejected_unchanged _ (by decide +kernel), reset_rejected_unchanged exZ _ _ (by decide +kernel)⟩
+
+example : (exEngine.move exZ "e2e4".toList).1.takeBack.2 = true ∧
+    (exEngine.move exZ "e2e4".toList).1.takeBack.1.position = exEngine.position ∧
+    (exEngine.move exZ "e2e4".toList).1.takeBack.1.takeBack.2 = false := by decide +kernel
+
+/-- `game_move_accepted_iff` on the start position: whatever strings were fed before, the next one is accepted iff it
+    denotes a legal move of the reference. -/
+example (ts : List (List Char)) (txt : List Char) :
+    ((feed exZ exEngine ts).move exZ txt).2 = true ↔
+      ∃ cand, parseMove txt = some cand ∧
+        absMove cand ∈ Spec.legalMoves (abs (feed exZ exEngine ts).pos (feed exZ exEngine ts).turn) := by
+  obtain ⟨d, hd, hp, ht⟩ := exEngine_decoded
+  exact (game_move_accepted_iff exZ default startFen d hd (by rw [hp, ht]; exact startPos_wfplay) ts txt).1
+
+end Engine
 
 end Morlock.Props.C19
